@@ -75,9 +75,41 @@ func runOne(id int, seed int64, nops int, base string, pool *storeh.Pool, replay
 		}
 	}
 	g.Resync()
-	for _, op := range storeh.FullDump(g) {
-		e.Exec(&op)
-		h.Ops = append(h.Ops, op)
+	dump := storeh.FullDump(g)
+	for i := range dump {
+		e.Exec(&dump[i])
+		h.Ops = append(h.Ops, dump[i])
+	}
+	// Concurrent readers: the same read-only dump from several goroutines at
+	// once must give every goroutine the answers of the sequential dump
+	// (the read methods only take the store's read lock).
+	const readers, rounds = 6, 4
+	var rwg sync.WaitGroup
+	bad := make([]string, readers)
+	for r := 0; r < readers; r++ {
+		rwg.Add(1)
+		go func(r int) {
+			defer rwg.Done()
+			for k := 0; k < rounds && bad[r] == ""; k++ {
+				for i := range dump {
+					op := dump[(i+r*7)%len(dump)]
+					want := op.Obs
+					op.Obs = ""
+					e.Exec(&op)
+					if op.Obs != want {
+						bad[r] = fmt.Sprintf("%s: concurrent read gave %s, sequential read gave %s", storeh.OpTerm(&op), op.Obs, want)
+						break
+					}
+				}
+			}
+		}(r)
+	}
+	rwg.Wait()
+	for _, b := range bad {
+		if b != "" {
+			h.ConcRead = b
+			break
+		}
 	}
 	return h, sb.String(), false
 }
@@ -174,6 +206,10 @@ func main() {
 		p := filepath.Join(a.Out, fmt.Sprintf("hist-%d.json", hs[i].ID))
 		c.WriteJSON(p, hs[i])
 		rep.Cases[fmt.Sprint(hs[i].ID)] = p
+		if hs[i].ConcRead != "" {
+			rep.ImplFailures = append(rep.ImplFailures, c.ImplFailure{Case: fmt.Sprint(hs[i].ID), Step: len(hs[i].Ops),
+				What: "concurrent readers of a quiescent store disagree with the sequential dump: " + hs[i].ConcRead, Tag: "concurrent-read"})
+		}
 		for j, op := range hs[i].Ops {
 			if op.Panic != "" {
 				rep.ImplFailures = append(rep.ImplFailures, c.ImplFailure{Case: fmt.Sprint(hs[i].ID), Step: j,
